@@ -10,6 +10,10 @@ import (
 )
 
 func init() {
+	customPreds["detachedCtx"] = func(st *fstate, a []*Term) bool {
+		t := a[0]
+		return t.K == "call" && (t.S == "context.WithoutCancel" || t.S == "context.Background" || t.S == "context.TODO")
+	}
 	obs := []Ob{
 		{ID: "E1.jwks.cache-only-on-success", Fn: "client/rp.(*remoteKeySet).updateKeys", P: []string{"r", "ctx"}, Kind: "store", Pat: "store($r.cachedKeys, $keys)", Max: 1,
 			Why: "a failed or malformed download never replaces the cached keys",
@@ -17,9 +21,9 @@ func init() {
 		{ID: "E1.jwks.single-flight.create", Fn: "client/rp.(*remoteKeySet).keysFromRemote", P: []string{"r", "ctx"}, Kind: "store", Pat: "store($r.inflight, rp.newInflight())", Max: 1,
 			Why: "a new download is started only when none is in flight (concurrent misses share one)",
 			Req: []string{"nil($r.inflight)"}},
-		{ID: "E1.jwks.single-flight.start", Fn: "client/rp.(*remoteKeySet).keysFromRemote", P: []string{"r", "ctx"}, Kind: "go", Pat: "gostmt($r.updateKeys(context.WithoutCancel($ctx)))", Max: 1,
-			Why: "the shared download runs once per inflight record and is detached from the first caller's cancellation",
-			Req: []string{"eq($r.inflight, rp.newInflight())"}},
+		{ID: "E1.jwks.single-flight.start", Fn: "client/rp.(*remoteKeySet).keysFromRemote", P: []string{"r", "ctx"}, Kind: "go", Pat: "gostmt($r.updateKeys($c))", Max: 1,
+			Why: "the shared download runs once per inflight record and must not be cancelled by the first caller's context (other callers wait for it)",
+			Req: []string{"eq($r.inflight, rp.newInflight())", "detachedCtx($c)"}},
 		{ID: "E1.jwks.single-flight.only-start", Fn: "client/rp.(*remoteKeySet).keysFromRemote", Kind: "go", Max: 1},
 		{ID: "E1.jwks.update.done-once", Fn: "client/rp.(*remoteKeySet).updateKeys", P: []string{"r", "ctx"}, Kind: "call", Pat: "$r.inflight.done($keys, $err)", Max: 1,
 			Req: []string{"def($keys, $r.fetchRemoteKeys(_), 0)", "def($err, $r.fetchRemoteKeys(_), 1)"}},
